@@ -126,6 +126,8 @@ func gen16(seed int64, tier string) []drv.Case {
 				ops = append(ops, op{Op: "get", Key: k})
 			case x < 15:
 				ops = append(ops, op{Op: "abandon", Pre: prefixes[r.Intn(len(prefixes))], Delim: []string{"", "/", "-"}[r.Intn(3)], Count: 1 + r.Intn(2)})
+				// two paged listings of the same prefix advanced alternately (different delimiters or page sizes)
+				ops = append(ops, op{Op: "interleave", Pre: prefixes[r.Intn(len(prefixes))], Delim: []string{"", "/", "-"}[r.Intn(3)], Count: 1 + r.Intn(2)})
 			default:
 				ops = append(ops, op{Op: "list", Pre: prefixes[r.Intn(len(prefixes))], Delim: []string{"", "/", "/", "-"}[r.Intn(4)]})
 			}
@@ -336,6 +338,44 @@ func run16(c drv.Case, res *drv.Result) {
 			case "abandon":
 				guard("KeysPrefix", "KeysPrefix", func() { _, _, _ = s.KeysPrefix(ctx, "", o.Pre, o.Delim, o.Count) })
 				res.Stat("abandoned_listings", 1)
+			case "interleave":
+				type iter struct {
+					delim string
+					count int
+					tok   string
+					got   []string
+					done  bool
+				}
+				other := map[string]string{"": "/", "/": "", "-": "/"}[o.Delim]
+				its := []*iter{{delim: o.Delim, count: o.Count}, {delim: other, count: 3 - o.Count}}
+				for pages := 0; pages < 4000 && !(its[0].done && its[1].done); pages++ {
+					it := its[pages%2]
+					if it.done {
+						continue
+					}
+					var page []string
+					var next string
+					var err error
+					if !guard("KeysPrefix", "KeysPrefix", func() { page, next, err = s.KeysPrefix(ctx, it.tok, o.Pre, it.delim, it.count) }) {
+						return
+					}
+					if err != nil {
+						res.Violate("listing-error", "KeysPrefix|interleaved", "step %d: interleaved KeysPrefix(prefix=%q, delimiter=%q, count=%d, token=%q): %v", i, o.Pre, it.delim, it.count, it.tok, err)
+						return
+					}
+					it.got = append(it.got, page...)
+					it.tok, it.done = next, next == ""
+				}
+				res.Stat("interleaved_listings", 1)
+				for _, it := range its {
+					want := memstore.ListItems(sortedKeys(model), o.Pre, it.delim)
+					if !it.done || strings.Join(it.got, "\n") != strings.Join(want, "\n") {
+						res.Violate("listing-mismatch", classify(it.got, want)+"|interleaved-with-another-listing-of-the-prefix|delimiter="+it.delim,
+							"step %d: keys %v: KeysPrefix(prefix=%q, delimiter=%q) paged by %d, interleaved page by page with a listing of the same prefix with delimiter %q, returned %v (finished=%v); the object-store listing is %v",
+							i, sortedKeys(model), o.Pre, it.delim, it.count, map[bool]string{true: its[1].delim, false: its[0].delim}[it == its[0]], it.got, it.done, want)
+						return
+					}
+				}
 			case "list":
 				ok = checkList(o.Pre, o.Delim, i, "plain")
 			}
